@@ -63,7 +63,7 @@ def LoopInv {E : Type} (A : Alg E) (supp slm : List Nat) (all : List SNode) (k :
 theorem importBinLoop_records {E : Type} (g : Guards) (A : Alg E) (term : E) (nvars numLevels : Nat)
     (slm : List Nat) (all : List SNode) (r : List Nat)
     (hw : WFNodes nvars all) (M : LevelMaps (suppLevels nvars all) slm numLevels)
-    (hred : ∀ l cs, A.level (A.reduce l cs) = l) :
+    (hred : ∀ l cs, A.level (A.reduce l cs) = l) (hcl : ∀ x, A.level (A.complement x) = A.level x) :
     ∀ (m k : Nat) (acc : List E), k + m = all.length → LoopInv A (suppLevels nvars all) slm all k acc →
       ∃ built, buildNodes A (tlev (suppLevels nvars all) slm) (all.drop k) acc = some built ∧
         importBinLoop g A term (mkLevelSuppvarMap numLevels slm) slm m (k + 2) acc
@@ -87,7 +87,7 @@ theorem importBinLoop_records {E : Type} (g : Guards) (A : Alg E) (term : E) (nv
     have hstep := importBinStep_record g A term (suppLevels nvars all) slm numLevels all (k + 2) acc all[k] t e
       te ee (binNodeRecords 1 (suppLevels nvars all) all (k + 2 + 1) (all.drop (k + 1)) ++ r) M hch ht0 htlt he0 helt
       (by have := hw.lt_usize; omega) hte hee (mem_suppLevels nvars all _ (List.getElem_mem _) hlv) hLt hLe
-      (levelOfId_dom nvars all hw _ (by omega)) (levelOfId_dom nvars all hw _ (by omega)) hlte hlee
+      (levelOfId_dom nvars all hw _ (by omega)) (levelOfId_dom nvars all hw _ (by omega)) hlte hlee hcl
     -- the new edge
     generalize hx : A.reduce (tlev (suppLevels nvars all) slm all[k].level)
       [te, if e < 0 then A.complement ee else ee] = x at hstep
@@ -148,7 +148,7 @@ theorem freeAlg_level_reduce (l : Nat) (cs : List (Bool × RT)) : freeAlg.level 
 theorem importBin_nodeSection {E : Type} (g : Guards) (A : Alg E) (term : E) (nvars numLevels : Nat)
     (slm : List Nat) (d : Diagram) (r : List Nat)
     (hT : A.parseTerminal [84] = some term) (hterm : A.level term = levelMax)
-    (hred : ∀ l cs, A.level (A.reduce l cs) = l)
+    (hred : ∀ l cs, A.level (A.reduce l cs) = l) (hcl : ∀ x, A.level (A.complement x) = A.level x)
     (hd : d.terms.length = 1) (hw : WFNodes nvars d.nodes)
     (M : LevelMaps (suppLevels nvars d.nodes) slm numLevels) :
     ∃ built, buildNodes A (tlev (suppLevels nvars d.nodes) slm) d.nodes [term] = some built ∧
@@ -159,7 +159,7 @@ theorem importBin_nodeSection {E : Type} (g : Guards) (A : Alg E) (term : E) (nv
     have : id = 1 := by omega
     subst this
     exact ⟨term, rfl, by rw [levelOfId_terminal _ _ (Nat.le_refl 1), tlev_levelMax]; exact hterm⟩
-  obtain ⟨built, hb, hl⟩ := importBinLoop_records g A term nvars numLevels slm d.nodes r hw M hred
+  obtain ⟨built, hb, hl⟩ := importBinLoop_records g A term nvars numLevels slm d.nodes r hw M hred hcl
     d.nodes.length 0 [term] (by omega) hinv
   refine ⟨built, by simpa using hb, ?_⟩
   unfold importBin
